@@ -120,6 +120,18 @@ Theorem C11_print_layout :
 Proof. exact print_layout. Qed.
 Print Assumptions C11_print_layout.
 
+(* A line break starts a new row: in the layout of  a ++ [line break] ++ b  every cluster is
+   either one of the layout of [a] alone (and lies in or above the row where [a] ended) or
+   lies strictly below that row. *)
+Theorem C11_print_line_break :
+  forall measure remeasure (cols rows : Z) (a b : list (character * Z)) (nl : character * Z) (col row : Z) (p : placement),
+  has_nl (gr (fst nl)) = true ->
+  In p (fst (print_places measure remeasure cols rows (a ++ nl :: b) col row)) ->
+  let ra := print_places measure remeasure cols rows a col row in
+  (In p (fst ra) /\ snd (fst p) <= snd (snd ra)) \/ snd (snd ra) < snd (fst p).
+Proof. intros measure remeasure cols rows a b nl col row p; apply print_line_break. Qed.
+Print Assumptions C11_print_line_break.
+
 (* Println and PrintTruncate draw [println_places] / [ptrunc_places] *)
 Theorem C11_println_is_layout :
   forall measure remeasure (w : window) (s : screen) (row : Z) (segs : list segment),
@@ -269,7 +281,31 @@ Proof.
 Qed.
 Print Assumptions C11_overhang_literal_refuted.
 
+(* ---------------------------------------------------------------- the harness predicate *)
+
+(* The differential run evaluates two decidable predicates on every case (input together
+   with what the implementation did): [case_agrees] (the model computes the same frames,
+   origin, changed cells and result) and [case_holds = case_core_holds && case_more_holds]
+   (the property, stated on the observation alone).  Whatever agrees with the model satisfies
+   the core predicate: no panic, New clamps, every changed cell in the clip, SetCell/SetStyle
+   change exactly the cell at origin+offset iff it is in the clip, no glyph of a text helper
+   outside the clip on constructed windows.  ([case_more_holds]: reading order as a
+   subsequence test and non-overlap of the observed cells, is evaluated on every case but has
+   no such theorem; the layout theorems above are its counterpart on the model.) *)
+Theorem C11_observation_predicate_sound : forall c : case,
+  0 <= c_cols c -> 0 <= c_rows c -> case_agrees c = true -> case_core_holds c = true.
+Proof. exact agrees_core_holds. Qed.
+Print Assumptions C11_observation_predicate_sound.
+
 (* ---------------------------------------------------------------- non-vacuity *)
+
+Example C11_example_case :
+  let c := mkCase 3 2 (mkCell [46] 1 99) (None, [(true, (1, 0, 2, 9))]) false []
+             (OSetCell 1 1 (mkCell [120] 1 3))
+             (mkObs 0 [mkFrame 1 0 2 2; mkFrame 0 0 3 2] (1, 0) [(2, 1, mkCell [120] 1 3)] (0, 0)) in
+  case_agrees c = true /\ case_holds c = true.
+Proof. vm_compute. split; reflexivity. Qed.
+
 
 (* a well-formed screen exists; resize produces one *)
 Example C11_example_wf : WF (bg_screen zero_cell 5 4) /\
@@ -297,6 +333,17 @@ Example C11_example_print :
          (items_of [([([97], 1); ([98], 1); ([20013], 2); ([100], 1)], 7)]) 0 0) =
   [(0, 0, mkCell [97] 1 7); (1, 0, mkCell [98] 1 7); (0, 1, mkCell [20013] 2 7); (2, 1, mkCell [100] 1 7)].
 Proof. reflexivity. Qed.
+
+(* ... its hypothesis holds there, and a line break is recognised *)
+Example C11_example_print_hyp :
+  let items := items_of [([([97], 1); ([13; 10], 0); ([20013], 2)], 7)] in
+  (forall it, In it items -> 0 <= item_width (fun _ => 0) false it) /\
+  has_nl [13; 10] = true /\
+  fst (print_places (fun _ => 0) false 3 2 items 0 0) = [(0, 0, mkCell [97] 1 7); (0, 1, mkCell [20013] 2 7)].
+Proof.
+  cbn zeta. split; [|split; reflexivity].
+  intros it [<-|[<-|[<-|[]]]]; vm_compute; discriminate.
+Qed.
 
 (* the hypotheses of C11_text_no_overhang are met by a constructed window on which Print
    really changes cells *)
